@@ -32,7 +32,8 @@ CONSTANTS
   StatsMicro,            \* TRUE: every statistics operation is its own step
   StatsCount,            \* FALSE: statistics steps leave the counters alone (liveness checking needs a finite graph)
   DevAmendStaleLookup,   \* TRUE = defect D3: amend takes old quantities from the lookup
-  DevZeroDisplaySpin     \* TRUE = defect D4: no set-aside, match re-queues a zero-display order forever
+  DevZeroDisplaySpin,    \* TRUE = defect D4: no set-aside, match re-queues a zero-display order forever
+  DevStatsOwnPrice       \* TRUE = defect D9: executions are booked at the maker's own price field, not the level's
 
 -----------------------------------------------------------------------------
 (* Small helpers *)
@@ -160,8 +161,9 @@ Step1(sh, me) ==
                         Ev("st_exec", "fetch_add", 1, sh.st.exec))
   [] me.pc = "ms2" -> R([sh EXCEPT !.st.qty = @ + me.res.c], [me EXCEPT !.pc = "ms3"],
                         Ev("st_qty", "fetch_add", me.res.c, sh.st.qty))
-  [] me.pc = "ms3" -> R([sh EXCEPT !.st.val = @ + me.res.c * me.cur.px], [me EXCEPT !.pc = "ms4"],
-                        Ev("st_val", "fetch_add", me.res.c * me.cur.px, sh.st.val))
+  [] me.pc = "ms3" -> LET bookpx == IF DevStatsOwnPrice THEN me.cur.px ELSE Price IN      \* D9, repaired: the level's price
+                      R([sh EXCEPT !.st.val = @ + me.res.c * bookpx], [me EXCEPT !.pc = "ms4"],
+                        Ev("st_val", "fetch_add", me.res.c * bookpx, sh.st.val))
   [] me.pc = "ms4" -> R(sh, IF me.cur.ts > 0 THEN [me EXCEPT !.pc = "ms5"] ELSE AfterStats(me),
                         Ev("st_last", "store", 0, 0))                         \* wall clock, value not modelled
   [] me.pc = "ms5" -> R(sh, AfterStats(me), Ev("st_wait", "fetch_add", 0, 0)) \* wall clock
@@ -307,6 +309,7 @@ CallTarget(c) == IF Class(c) \in {"remove", "amend"} THEN c.id ELSE 0
 GhostInit(Threads, qm) ==
   [cop |-> [t \in Threads |-> "idle"], cid |-> [t \in Threads |-> 0],
    held |-> [t \in Threads |-> <<>>], lastRm |-> [t \in Threads |-> 0],
+   vexec |-> [t \in Threads |-> ZeroIds],
    pushing |-> [t \in Threads |-> 0], popped |-> [t \in Threads |-> 0], cur |-> [t \in Threads |-> 0],
    supplied |-> [i \in Ids |-> IF IsOrder(qm[i]) THEN Total(qm[i]) ELSE 0],
    executed |-> ZeroIds, back |-> ZeroIds, disc |-> ZeroIds,
@@ -349,7 +352,7 @@ GhostOp(gh, t, e) ==
                               !.gone[e.v] = IF cls = "remove" THEN TRUE ELSE @,     \* the canceller owns it from here on
                               !.bad = IF gh.gone[e.v] THEN @ \cup {IF cls = "match" THEN "traded-after-cancel" ELSE "handed-out-twice"} ELSE @]
          IN IF cls \in {"match", "amend"}
-            THEN [g2 EXCEPT !.held[t] = Append(@, [o |-> e.r, c |-> 0])]
+            THEN [g2 EXCEPT !.held[t] = Append(@, [o |-> e.r])]
             ELSE g2
     [] e.o = "map" /\ e.op \in {"remove", "get"} /\ ~IsOrder(e.r) ->
          LET g1 == [gh EXCEPT !.popped[t] = 0] IN
@@ -362,9 +365,6 @@ GhostOp(gh, t, e) ==
     [] e.o \in {"vis", "gen"} /\ cls = "match" /\ gh.cur[t] \in Ids /\ gh.gone[gh.cur[t]] /\ gh.cur[t] \notin HeldIds(gh, t) ->
          (* the matcher executes against a maker that a successful cancel has taken *)
          [gh EXCEPT !.bad = @ \cup {"traded-after-cancel"}]
-    [] e.o = "vis" /\ e.op = "fetch_sub" /\ cls = "match" /\ gh.lastRm[t] \in HeldIds(gh, t) ->
-         LET i == gh.lastRm[t] IN
-         [gh EXCEPT !.held[t] = [k \in DOMAIN @ |-> IF @[k].o.id = i THEN [@[k] EXCEPT !.c = e.v] ELSE @[k]]]
     [] e.o = "map" /\ e.op = "insert" ->
          LET i  == e.v.id
              g1 == [gh EXCEPT !.pushing[t] = i] IN
@@ -375,19 +375,14 @@ GhostOp(gh, t, e) ==
          THEN LET h == HeldEntry(gh, t, i)
                   g2 == Reinserted([g1 EXCEPT !.held[t] = DropHeld(@, i)], t, i) IN
               IF cls = "match"
-              THEN [g2 EXCEPT !.bad = IF Total(h.o) - h.c # Total(e.v) THEN @ \cup {"visit-not-conserved"} ELSE @]
+              THEN (* the matcher puts a visited maker back: what the visit took out of it is what it must
+                      report as executed against it (settled at the return of the call; the ghost does not
+                      rely on which counter updates the code performs in between) *)
+                   LET d == Total(h.o) - Total(e.v) IN
+                   [g2 EXCEPT !.vexec[t][i] = @ + d,
+                              !.bad = IF d < 0 THEN @ \cup {"visit-not-conserved"} ELSE @]
               ELSE [g2 EXCEPT !.supplied[i] = @ + Total(e.v) - Total(h.o)]
          ELSE [g1 EXCEPT !.bad = @ \cup {"insert-of-unheld"}]
-    [] e.o = "cnt" /\ e.op = "fetch_sub" /\ cls = "match" /\ gh.lastRm[t] \in HeldIds(gh, t) ->
-         (* the maker visited last leaves the book *)
-         LET i == gh.lastRm[t]
-             h == HeldEntry(gh, t, i)
-             left == Total(h.o) - h.c IN
-         [gh EXCEPT !.held[t] = DropHeld(@, i),
-                    !.disc[i] = @ + left,
-                    !.pmiss = {p \in @ : p # <<i, t>>},      \* it is gone: those not-founds were truthful
-                    !.bad = IF left # 0 /\ ~(h.o.kind = "Reserve" /\ left = h.o.hid)
-                            THEN @ \cup {"quantity-dropped"} ELSE @]
     [] OTHER -> gh
 
 GhostRet(gh, t, r) ==
@@ -396,10 +391,24 @@ GhostRet(gh, t, r) ==
   CASE r.t = "match" ->
          LET txs == r.txs
              ex  == [j \in Ids |-> gh.executed[j] + SumSeq([k \in DOMAIN txs |-> IF txs[k].maker = j THEN txs[k].qty ELSE 0])]
+             (* settlement of the visits of this call.  X[j]: executed against j according to the result;
+                vexec: what the visits that ended in a re-insert took out of j.  A maker still held at the
+                return was not put back: it left the book in its last visit, which executed the rest. *)
+             X     == [j \in Ids |-> SumSeq([k \in DOMAIN txs |-> IF txs[k].maker = j THEN txs[k].qty ELSE 0])]
+             L     == HeldIds(gh, t)
+             clast == [j \in Ids |-> X[j] - gh.vexec[t][j]]
+             left  == [j \in Ids |-> IF j \in L THEN Total(HeldEntry(gh, t, j).o) - clast[j] ELSE 0]
+             nb    == (IF \E j \in Ids \ L : clast[j] # 0 THEN {"visit-not-conserved"} ELSE {})
+                      \cup (IF \E j \in L : clast[j] < 0 \/ left[j] < 0 THEN {"visit-not-conserved"} ELSE {})
+                      \cup (IF \E j \in L : left[j] # 0 /\ ~(HeldEntry(gh, t, j).o.kind = "Reserve" /\ left[j] = HeldEntry(gh, t, j).o.hid)
+                            THEN {"quantity-dropped"} ELSE {})
          IN [g0 EXCEPT !.executed = ex,
                        !.issued = @ \o [k \in DOMAIN txs |-> txs[k].txid],
                        !.qtyX = @ + SumSeq([k \in DOMAIN txs |-> txs[k].qty]),
-                       !.bad = IF gh.held[t] # <<>> THEN @ \cup {"order-lost-by-match"} ELSE @]
+                       !.disc = [j \in Ids |-> @[j] + left[j]],
+                       !.held[t] = <<>>, !.vexec[t] = ZeroIds,
+                       !.pmiss = {p \in @ : ~(p[2] = t /\ p[1] \in L)},   \* they are gone: those not-founds were truthful
+                       !.bad = @ \cup nb]
     [] r.t = "some" /\ cls = "remove" ->
          (* a removal handed the order to its caller *)
          [g0 EXCEPT !.back[r.o.id] = @ + Total(r.o), !.nRem = @ + 1, !.gone[r.o.id] = TRUE]
